@@ -409,7 +409,13 @@ void World::on_unregister(long cid)
   if (s >= 0 && sigs[s])
   {
     std::vector<long> rest = msig[s];
-    rest.erase(std::find(rest.begin(), rest.end(), cid));
+    {
+      auto const pos = std::find(rest.begin(), rest.end(), cid);
+      if (pos != rest.end())
+        rest.erase(pos);
+      else
+        defer("unregister-of-failed-connect", "the unregister callback of connection " + std::to_string(cid) + " ran although that connection never became a member of its signal");
+    }
     bool const e = sigs[s]->empty();
     if (e != rest.empty())
       defer("membership-in-unregister", "inside the unregister callback of " + std::to_string(cid) + " signal.empty() is " + std::to_string(e) + " but " + std::to_string(rest.size()) + " other connections are alive");
@@ -775,7 +781,8 @@ void World::run_op(sim::Op const &op)
         else
         {
           // failed connect: the signal is unchanged and no unregister callback may ever run
-          SIM_CHECK(conns[c]->unreg_runs == 0, "unregister-of-failed-connect", n);
+          pending_cls.clear(); // (the precise check follows)
+          SIM_CHECK(conns[c]->unreg_runs == 0, "unregister-of-failed-connect", "connect() failed with an injected allocation failure, yet the unregister callback of the connection that never existed ran");
           conns[c].reset();
           ctx.probe("connect_failed");
         }
